@@ -260,4 +260,17 @@ PROPS = {
         ],
         "assumptions": ["Sync mode (Async promises no ordering)", "fdatasync makes the current content durable"],
     },
+    "C14": {
+        "modules": ["CasModel.Props.C14"],
+        "obligations": ["C14_put_contained", "faultPutCore_contained", "faultLogAndApply_index",
+                        "C14_failed_put_blob_kept", "applyOp_spec"],
+        "full": ["C14_put_contained", "C14_failed_put_blob_kept"],
+        "slices": [("c14", 40, 1200)],
+        "trusted": [
+            "fault model: the k-th mutating filesystem call returns an error with no side effect (interposer fail mode); one fault per targeted operation; staging-file writes are not fault points (a transaction whose write() failed is dropped, not finished — usage guard)",
+            "Fault.lean models the error paths by hand from the source (? propagation, Transaction/NamedTempFile drop, BufWriter retry-on-drop and retention, version consumed by a failed append, last_persisted_version set before a failed snapshot, ignored prune/close errors, protection kept after a failed append = F4 repair d559f18); proved: index afterwards is old or new, no panic outcome, a kept-protected blob is never in a later deletion list",
+            "everything else — exact error-path effects, behaviour of later operations, and that the reopen succeeds with the failed operation's keys old-or-new — is tied by the slice: failure at EVERY counted call of put/remove/checkpoint/close/open targets, continuation (incl. the put-same-content + remove sequence that exposed F4), reopen; compared event by event with the model and judged by the property's oracle",
+        ],
+        "assumptions": ["a failing call has no side effect", "single fault per operation; faults are not combined with crashes"],
+    },
 }
